@@ -42,11 +42,24 @@ def maxMsgSize : Nat := 65535
 def minMsgSize : Nat := 512
 
 /-- The `maxMsgSize` argument each write path hands to `normalize`: the configured
-`MaxUDPRespSize` on plain UDP, `dns.MaxMsgSize` everywhere else. -/
+`MaxUDPRespSize` on plain UDP and — since the `fix:` commit that wires
+`dns.max_udp_response_size` into the DNSCrypt server — on DNSCrypt (where only the UDP network
+looks at it), `dns.MaxMsgSize` everywhere else. -/
 def Transport.cap (t : Transport) (cfgMax : Nat) : Nat :=
   match t with
-  | .udp => cfgMax
+  | .udp | .dcUdp => cfgMax
   | _ => maxMsgSize
+
+/-- The same before that commit (`legacy`): the DNSCrypt handler passed the constant
+`dns.MaxMsgSize`, so the configured maximum never reached DNSCrypt/UDP. -/
+def Transport.capG (legacy : Bool) (t : Transport) (cfgMax : Nat) : Nat :=
+  if legacy then (match t with
+    | .udp => cfgMax
+    | _ => maxMsgSize)
+  else t.cap cfgMax
+
+@[simp] theorem Transport.capG_false (t : Transport) (cfgMax : Nat) :
+    t.capG false cfgMax = t.cap cfgMax := rfl
 
 /-- One EDNS option: code and payload length. -/
 structure EOpt where
@@ -238,14 +251,14 @@ def dropOpts (size : Nat) (r : Resp) (c : Cut) : Option Opt → Option Opt
 
 /-- The `truncate(resp, maxDNSSize(...))` call of `normalize`: what is kept. -/
 def truncCut (legacy : Bool) (t : Transport) (cfgMax : Nat) (req : Option Opt) (r : Resp) : Cut :=
-  truncate (tsigAtTruncate req r) (maxDNSSize t.isUdp (advertised req) (t.cap cfgMax)) r
+  truncate (tsigAtTruncate req r) (maxDNSSize t.isUdp (advertised req) (t.capG legacy cfgMax)) r
     (baseOpt legacy req r)
 
 /-- The OPT record after that call.  The pinned tree (`legacy`) has no option removal. -/
 def truncOpt (legacy : Bool) (t : Transport) (cfgMax : Nat) (req : Option Opt) (r : Resp) :
     Option Opt :=
   if legacy then baseOpt legacy req r
-  else dropOpts (maxDNSSize t.isUdp (advertised req) (t.cap cfgMax)) r (truncCut legacy t cfgMax req r)
+  else dropOpts (maxDNSSize t.isUdp (advertised req) (t.capG legacy cfgMax)) r (truncCut legacy t cfgMax req r)
     (baseOpt legacy req r)
 
 /-- `normalize(network, proto, req, resp, maxMsgSize)`. -/
@@ -421,5 +434,21 @@ function as AdGuard's `truncate`.  TCP: `Truncate` only, answers stay. -/
 def dcTruncate (isUdp : Bool) (exempt : Bool) (adv : Nat) (r1 : Resp) (opt : Option Opt) : Cut :=
   if isUdp then truncate exempt (dcSize true adv) r1 opt
   else msgTruncate exempt (dcSize false adv) r1 opt
+
+/-- The advertised size the library reads from the request when it truncates: the client's own
+(`legacy`: before the round-5 `fix:` commit), or — since `dnsCryptHandler.ServeDNS` lowers the
+request's UDP size after `normalize` — the smaller of that and the configured maximum.  Without a
+request OPT the library takes 512 whatever the configuration says (`advertised none = 0`). -/
+def dcAdvSeen (legacy : Bool) (adv cfgMax : Nat) : Nat :=
+  if legacy then adv else min adv cfgMax
+
+/-- The length of the message the DNSCrypt client decrypts.  `Msg.Truncate` of the library first
+looks at the *uncompressed* length: a message that fits `size` that way is left alone **with
+compression switched off** and is packed at its uncompressed length `r1.unc` (+ OPT); otherwise it is
+cut and packed compressed. -/
+def dcVisible (isUdp exempt : Bool) (advSeen : Nat) (r1 : Resp) (opt : Option Opt) : Nat :=
+  if !exempt && decide (r1.unc + optLen? opt ≤ max (dcSize isUdp advSeen) minMsgSize) then
+    r1.unc + optLen? opt
+  else finalLen r1 (dcTruncate isUdp exempt advSeen r1 opt) opt
 
 end Agd.Normalize
